@@ -405,6 +405,29 @@ def importM : Fmt → List Nat → Option Pal
   | .ice => importIce
   | .txt => importTxt
 
+/-! ## `import_palette`: dispatch on the file extension -/
+
+/-- `to_ascii_lowercase` -/
+def lowerAscii (c : Nat) : Nat := if 65 ≤ c ∧ c ≤ 90 then c + 32 else c
+
+def fmtOfNum : Nat → Option Fmt
+  | 0 => some .hex
+  | 1 => some .pal
+  | 2 => some .gpl
+  | 3 => some .ice
+  | 4 => some .txt
+  | _ => none
+
+/-- `Palette::import_palette(file_name, bytes)` given the extension of the file name; `none` = `Err(_)` -/
+def importByExt (ext : List Nat) (s : List Nat) : Option Pal :=
+  match importExts.find? (fun e => e.1 == ext.map lowerAscii) with
+  | some e => (fmtOfNum e.2).bind fun f => importM f s
+  | none => none
+
+/-- `Color::to_hex` / `Color::from_hex` (first six hex digits anywhere in the text) -/
+def colorToHex (c : Rgb) : List Nat := 35 :: (hex2 c.r ++ hex2 c.g ++ hex2 c.b)
+def colorFromHex (s : List Nat) : Option Rgb := (findFirst (hexRun 6) s).map fun m => rgbOfHex6 m.1
+
 def Pal.rgbs (p : Pal) : List Rgb := p.colors.map (·.rgb)
 
 end IcyVerif.Palette
